@@ -92,6 +92,8 @@ end
 /-- no newline (the regex's `.` does not match `\n`) -/
 def NoNL (s : String) : Prop := s.toList.all (fun c => c != '\n') = true
 
+instance (s : String) : Decidable (NoNL s) := by unfold NoNL; infer_instance
+
 /-- **Hypotheses about pint** for one scalar quantity `(m, u)` (magnitude token, unit string):
 `str(q)` has no newline; and either the magnitude is not nan, `str(q)` does not start with
 `nan` and `units(str(q))` is the quantity again (magnitude re-read as `norm m u`), or the
